@@ -19,9 +19,11 @@
      lies between taking and releasing the pid in the object-pid class
      (`Proofs/Serial.lean`: serialisation of bracketed threads). So concurrent deleters
      never lose, duplicate or resurrect a reference among themselves.
+   * likewise any number of concurrent `tag_object(p, ·)` calls on one pid, whatever
+     the cids (`tags_of_one_pid_serialise`, `…_linearizable`).
   Not proved: linearizability of mixes of store / tag / delete on shared identifiers
-  outside the refuted windows (tag_object releases two identifiers in its `finally`,
-  and store_object's in-progress test is not a wait).
+  outside the refuted windows (the common identifier of two taggers of one *cid* is
+  an inner one; store_object's in-progress test is not a wait).
 -/
 import HSModel.Proofs.ConcLemmas
 import HSModel.Proofs.LockLemmas
@@ -125,13 +127,8 @@ theorem deletes_of_one_pid_serialise (cfg : Config) (o : Oracle) (p : Str) (call
     ∃ order : List Nat, order.Nodup ∧ (∀ j, j ∈ order ↔ j < calls.length) ∧
       fin.w = (seqRun progs order w0).1 ∧
       ∀ (j : Nat) (t : TState), fin.ts[j]? = some t → ∃ v, t = TState.finished v ∧ (j, v) ∈ (seqRun progs order w0).2 := by
-  intro progs fin hall
-  have hb : ∀ q ∈ progs, q.Bracketed .objPid p := by
-    intro q hq
-    obtain ⟨x, hx, rfl⟩ := List.mem_map.mp hq
-    exact deletesPid_bracketed cfg o p x (hc x hx)
-  obtain ⟨order, h1, h2, h3, h4⟩ := serial_schedule .objPid p progs w0 hb (List.count_eq_zero.mpr h0) fuel sched hall
-  exact ⟨order, h1, fun j => by rw [h2 j]; simp [progs], h3, h4⟩
+  exact serial_of_bracketed cfg o .objPid p calls
+    (fun x hx => Prog.bracketedU_of_bracketed _ (deletesPid_bracketed cfg o p x (hc x hx))) w0 h0 fuel sched
 
 /-- … and are linearizable with respect to the specification: from a directory
     that simulates `a`, nothing claimed, no fault plan, there is an order in which
@@ -148,11 +145,49 @@ theorem deletes_of_one_pid_linearizable (cfg : Config) (o : Oracle) (p : Str) (c
       ∀ (j : Nat) (t : TState), fin.ts[j]? = some t →
         ∃ v, t = TState.finished v ∧ (j, v) ∈ order.zip (specHist cfg o (pick calls order) a).1 :=
   linearizable_of_bracketed cfg o .objPid p calls
-    (fun x hx => deletesPid_bracketed cfg o p x (hc x hx))
+    (fun x hx => Prog.bracketedU_of_bracketed _ (deletesPid_bracketed cfg o p x (hc x hx)))
     (fun x hx => by
       have := hc x hx
       cases x <;> first | trivial | exact this.elim)
     st log a hs ho fuel sched
+
+/-! ### taggers of one pid -/
+
+/-- **Concurrent tags of one pid serialise.** Any number of threads, each a
+    `tag_object(p, ·)` call with whatever cid (or one rejected for its arguments);
+    any start world in which `p` is not claimed in the reference-pid class; any
+    schedule, any step budget. When all have returned, the world is the one a
+    sequential run in some order reaches, results included: exactly one tagging
+    of an unbound pid succeeds, whichever cids compete. (`tag_object` releases two
+    identifiers in its `finally`; the shape is read the way the lock discipline
+    reads programs — an acquire continues when granted, a release of a held
+    identifier succeeds — and the discipline of every call, `call_neutral`, is what
+    makes that reading sound.) -/
+theorem tags_of_one_pid_serialise (cfg : Config) (o : Oracle) (p : Str) (calls : List Call)
+    (hc : ∀ x ∈ calls, TagsPid p x) (w0 : World) (h0 : p ∉ w0.lk.refPid) (fuel : Nat) (sched : List Nat) :
+    let progs := calls.map (Call.tprog cfg o)
+    let fin := (runSchedule fuel { w := w0, ts := progs.map .fresh } sched 0).1
+    fin.allFinished = true →
+    ∃ order : List Nat, order.Nodup ∧ (∀ j, j ∈ order ↔ j < calls.length) ∧
+      fin.w = (seqRun progs order w0).1 ∧
+      ∀ (j : Nat) (t : TState), fin.ts[j]? = some t → ∃ v, t = TState.finished v ∧ (j, v) ∈ (seqRun progs order w0).2 :=
+  serial_of_bracketed cfg o .refPid p calls
+    (fun x hx => tagsPid_bracketedU cfg o p x (hc x hx)) w0 h0 fuel sched
+
+/-- … and are linearizable with respect to the specification (cids without a
+    deletion-marker suffix, as the refinement theorem asks) -/
+theorem tags_of_one_pid_linearizable (cfg : Config) (o : Oracle) (p : Str) (calls : List Call)
+    (hc : ∀ x ∈ calls, TagsPid p x) (hplain : ∀ x ∈ calls, CidArgPlain x)
+    (st : Store) (log : List Eff) (a : Abs) (hs : Sim o st a)
+    (ho : GoodOracle o) (fuel : Nat) (sched : List Nat) :
+    let fin := (runSchedule fuel { w := calm st log, ts := (calls.map (Call.tprog cfg o)).map .fresh } sched 0).1
+    fin.allFinished = true →
+    ∃ order : List Nat, order.Nodup ∧ (∀ j, j ∈ order ↔ j < calls.length) ∧
+      Sim o fin.w.st (specHist cfg o (pick calls order) a).2 ∧ fin.w.lk = {} ∧
+      ∀ (j : Nat) (t : TState), fin.ts[j]? = some t →
+        ∃ v, t = TState.finished v ∧ (j, v) ∈ order.zip (specHist cfg o (pick calls order) a).1 :=
+  linearizable_of_bracketed cfg o .refPid p calls
+    (fun x hx => tagsPid_bracketedU cfg o p x (hc x hx)) hplain st log a hs ho fuel sched
 
 /-! the hypotheses are satisfiable: two deletes of a bound pid and one rejected
     call, an interleaved schedule after which all have returned — one delete
@@ -173,5 +208,19 @@ example : ∀ x ∈ callsD, DeletesPid "p1".toList x := by
     rw [this] at h; cases h; rfl
   · intro q h; have : checkString (.str "a b".toList) = .error .valueError := by decide
     rw [this] at h; cases h
+
+/-! … and two tags of one pid with different cids and one rejected call: the first
+    to take the pid succeeds, the other is told the pid is bound -/
+def callsT : List Call := [.tagObject p1 (.str "cx".toList), .tagObject p1 (.str "cy".toList), .tagObject p1 .none]
+def serialDemoT : Conf × Nat := runSchedule 1000
+  { w := wUnref, ts := (callsT.map (Call.tprog cfgW oW)).map .fresh } (sched "120000000000000111111") 0
+example : serialDemoT.1.allFinished = true ∧ serialDemoT.2 = 21 ∧
+    serialDemoT.1.ts.map resOf = [some (.ok .unit), some (.error .pidRefsAlreadyExists), some (.error .valueError)] := by
+  decide
+example : ∀ x ∈ callsT, TagsPid "p1".toList x := by
+  intro x hx
+  have hp : checkString p1 = .ok "p1".toList := by decide
+  simp only [callsT, List.mem_cons, List.not_mem_nil, or_false] at hx
+  rcases hx with rfl | rfl | rfl <;> (intro q h; rw [hp] at h; cases h; rfl)
 
 end HS.C07
